@@ -10,15 +10,13 @@ open Optyx.Generated.PinsC18
 
 /-- `Problem.solve` (problem.py) -/
 theorem pin_problem_Problem_solve_anchor : pin_problem_Problem_solve = "f4e2acd2b640d4bc" := rfl
-/-- `increased_recursion_limit` (core/autodiff.py) -/
-theorem pin_autodiff_increased_recursion_limit_anchor : pin_autodiff_increased_recursion_limit = "7a8553786ac9be91" := rfl
 /-- `solve_lp` (solvers/lp_solver.py) -/
 theorem pin_lp_solver_solve_lp_anchor : pin_lp_solver_solve_lp = "244fed8ae6b2b560" := rfl
 /-- `solve_scipy` (solvers/scipy_solver.py) -/
 theorem pin_scipy_solver_solve_scipy_anchor : pin_scipy_solver_solve_scipy = "e7c69a3a73fa09d9" := rfl
 
 /-- every function the model of C18 transcribes (and no translator covers) is the one it was read from -/
-theorem anchors : pin_problem_Problem_solve = "f4e2acd2b640d4bc" ∧ pin_autodiff_increased_recursion_limit = "7a8553786ac9be91" ∧ pin_lp_solver_solve_lp = "244fed8ae6b2b560" ∧ pin_scipy_solver_solve_scipy = "e7c69a3a73fa09d9" :=
-  ⟨pin_problem_Problem_solve_anchor, pin_autodiff_increased_recursion_limit_anchor, pin_lp_solver_solve_lp_anchor, pin_scipy_solver_solve_scipy_anchor⟩
+theorem anchors : pin_problem_Problem_solve = "f4e2acd2b640d4bc" ∧ pin_lp_solver_solve_lp = "244fed8ae6b2b560" ∧ pin_scipy_solver_solve_scipy = "e7c69a3a73fa09d9" :=
+  ⟨pin_problem_Problem_solve_anchor, pin_lp_solver_solve_lp_anchor, pin_scipy_solver_solve_scipy_anchor⟩
 
 end Optyx.Props.PinsC18
